@@ -170,6 +170,43 @@ func c10(r *core.Run) {
 		c10Census(r, h, field)
 	}
 	r.Floor("C10/R1", nOwner, 8, "owner-only handlers")
+	// ---- R7 a remove message only removes: the access list it stores gains no entry
+	r.Rule("C10/R7", "a remove message alters nothing but the ids it names: in the remove-viewers / remove-editors handlers the access map receives no new entry (entries copied over from a range of the decoded list apart), it is only deleted from")
+	nRemove := 0
+	for _, key := range []string{"filetree.MsgRemoveViewers", "filetree.MsgRemoveEditors"} {
+		h := core.HandlerByKey(hs, key)
+		if h == nil {
+			r.Undecided("C10/R7", key+":anchor-missing", "", "handler missing")
+			continue
+		}
+		for _, fn := range p.Summary(h.Fn).Funcs {
+			if core.ModuleOf(fn) != "filetree" {
+				continue
+			}
+			allInstrs(fn, func(in ssa.Instruction) {
+				switch x := in.(type) {
+				case *ssa.Call:
+					if b, ok := x.Call.Value.(*ssa.Builtin); ok && b.Name() == "delete" {
+						nRemove++
+					}
+				case *ssa.MapUpdate:
+					if x.Map.Type().Underlying().String() != "map[string]string" {
+						return
+					}
+					// copying an entry of the decoded list into a fresh map (filtering) is not an insertion
+					copied := false
+					if ex, ok := x.Key.(*ssa.Extract); ok {
+						if _, isNext := ex.Tuple.(*ssa.Next); isNext {
+							copied = true
+						}
+					}
+					nRemove++
+					r.Check(copied, "C10/R7", key+":no-entry-added:"+fn.Name(), p.InstrPos(x), "entries are only copied over or deleted", "a remove message adds an entry to the access list it stores (an id the message did not name gains access)")
+				}
+			})
+		}
+	}
+	r.Floor("C10/R7", nRemove, 2, "remove handlers' map operations")
 	// ---- R5 the named change happens on every successful return (reset / change owner / delete)
 	for _, key := range []string{"filetree.MsgResetViewers", "filetree.MsgResetEditors", "filetree.MsgChangeOwner", "filetree.MsgDeleteFile"} {
 		h := core.HandlerByKey(hs, key)
@@ -199,13 +236,44 @@ func c10(r *core.Run) {
 				continue
 			}
 			okReset, detail := false, "stored value is not json.Marshal of a fresh map"
+			type fieldAssign struct {
+				Val ssa.Value
+				ctx ssa.CallInstruction // the call of the record's setter method in which the assignment happens, if any
+			}
+			var assigns []fieldAssign
 			for _, st := range fieldStores(al, field) {
+				assigns = append(assigns, fieldAssign{st.Val, nil})
+			}
+			if len(assigns) == 0 {
+				// assigned by a method of the record called with its address (file.SetViewerMap(m))
+				for _, ref := range *al.Referrers() {
+					cs, isCall := ref.(ssa.CallInstruction)
+					if !isCall {
+						continue
+					}
+					for _, cal := range p.Callees(cs) {
+						for i, a := range cs.Common().Args {
+							if a != ssa.Value(al) || i >= len(cal.Params) || !p.MayWriteField(cal, i, field) {
+								continue
+							}
+							allInstrs(cal, func(in ssa.Instruction) {
+								if st, ok := in.(*ssa.Store); ok {
+									if fa, ok := st.Addr.(*ssa.FieldAddr); ok && fa.X == ssa.Value(cal.Params[i]) && core.FieldName(fa.X.Type(), fa.Field) == field {
+										assigns = append(assigns, fieldAssign{st.Val, cs})
+									}
+								}
+							})
+						}
+					}
+				}
+			}
+			for _, st := range assigns {
 				// value = string(json.Marshal(M)#0), possibly produced by a helper that returns the marshalled string
 				// or the fresh map
 				var m ssa.Value
 				var helperCall *ssa.Call
-				var find func(v ssa.Value, idx int, depth int)
-				find = func(v ssa.Value, idx int, depth int) {
+				var find func(v ssa.Value, idx int, depth int, ctxs []ssa.CallInstruction)
+				find = func(v ssa.Value, idx int, depth int, ctxs []ssa.CallInstruction) {
 					for i := 0; i < 6 && v != nil && m == nil; i++ {
 						switch x := v.(type) {
 						case *ssa.Convert:
@@ -216,6 +284,22 @@ func c10(r *core.Run) {
 						case *ssa.MakeMap:
 							m = x
 							v = nil
+						case *ssa.Parameter:
+							// inside a setter method / encoding helper: the argument handed in at the call we came through
+							v = nil
+							for ci := len(ctxs) - 1; ci >= 0 && v == nil; ci-- {
+								for _, cal := range p.Callees(ctxs[ci]) {
+									if cal != x.Parent() {
+										continue
+									}
+									for pi, q := range cal.Params {
+										if q == x && pi < len(ctxs[ci].Common().Args) {
+											v = ctxs[ci].Common().Args[pi]
+											ctxs = ctxs[:ci]
+										}
+									}
+								}
+							}
 						case *ssa.Call:
 							if strings.HasSuffix(core.CalleeFullName(x), "encoding/json.Marshal") {
 								v = nil
@@ -234,7 +318,7 @@ func c10(r *core.Run) {
 										if c, isC := ret.Results[idx].(*ssa.Const); isC && c.Value != nil && c.Value.ExactString() == `""` {
 											continue // the failing return
 										}
-										find(ret.Results[idx], 0, depth+1)
+										find(ret.Results[idx], 0, depth+1, append(append([]ssa.CallInstruction{}, ctxs...), x))
 									}
 								}
 							}
@@ -244,7 +328,11 @@ func c10(r *core.Run) {
 						}
 					}
 				}
-				find(st.Val, 0, 0)
+				var ctxs []ssa.CallInstruction
+				if st.ctx != nil {
+					ctxs = append(ctxs, st.ctx)
+				}
+				find(st.Val, 0, 0, ctxs)
 				mm, isMake := m.(*ssa.MakeMap)
 				if !isMake {
 					helperCall = nil
@@ -465,6 +553,29 @@ func c10Census(r *core.Run, h *core.Handler, allowed string) {
 					for _, rr := range *x.Referrers() {
 						if st, ok := rr.(*ssa.Store); ok && st.Addr == x {
 							written[core.FieldName(x.X.Type(), x.Field)] = true
+						}
+					}
+				case ssa.CallInstruction:
+					// the record's address handed to a function of the repository (a method of the record that sets one of
+					// its fields): the fields that function may assign
+					cc := x.Common()
+					var actuals []ssa.Value
+					if cc.IsInvoke() {
+						actuals = append(actuals, cc.Value)
+					}
+					actuals = append(actuals, cc.Args...)
+					for i, a := range actuals {
+						if a != ssa.Value(al) {
+							continue
+						}
+						for _, cal := range p.Callees(x) {
+							if st, isStruct := derefStruct(al.Type()); isStruct {
+								for fi := 0; fi < st.NumFields(); fi++ {
+									if p.MayWriteField(cal, i, st.Field(fi).Name()) {
+										written[st.Field(fi).Name()] = true
+									}
+								}
+							}
 						}
 					}
 				}
